@@ -55,8 +55,9 @@ type env struct {
 	store       db.DB
 	kmc         *keystore.KeystoreManagerForPoC
 	pub         int
-	priv        int    // believed current private passphrase index, -1 = none yet
-	sameDigest  []byte // when set, every 32-byte signing request uses this digest
+	priv        int             // believed current private passphrase index, -1 = none yet
+	sameDigest  []byte          // when set, every 32-byte signing request uses this digest
+	mustSign    map[triple]bool // keys the wallet handed out, or restored from an untampered file, for a keystore it still manages
 	passes      []string
 	wf          []bool
 	seeds       [][]byte
@@ -182,6 +183,9 @@ func (e *env) freshWallet(pub int) {
 	}
 	e.kmc = k
 	e.pub, e.priv, e.unlocked = pub, -1, false
+	if e.mustSign != nil {
+		e.mustSign = map[triple]bool{} // another wallet: it manages nothing yet
+	}
 }
 
 func (e *env) wrapped(s db.DB) db.DB {
@@ -600,6 +604,11 @@ func (e *env) opImport(fno, old, new_ int, tam string) (string, string) {
 	case "account":
 		e.fail("C01", "tamper-account", "import accepted a file whose hdPath.Account was altered: a different identity and key set (%d instead of %d)", id, f.id)
 	case "none", "ignored":
+		for t := range f.addrs { // the keys the keystore had when the file was written are the wallet's again
+			if e.mustSign != nil && t.id == id {
+				e.mustSign[t] = true
+			}
+		}
 		if id != f.id || remark != f.remark {
 			e.fail("C01", "restore-identity", "file %d exported from keystore %d (remark %q) restored as keystore %d (remark %q)", fno, f.id, f.remark, id, remark)
 		}
@@ -636,6 +645,11 @@ func (e *env) opDelete(id, p int) (string, string) {
 		return line, "err rejected"
 	}
 	e.guarded("DeleteKeystore", p)
+	for t := range e.mustSign {
+		if t.id == id {
+			delete(e.mustSign, t)
+		}
+	}
 	if len(e.ksIDs()) == 0 {
 		e.priv = -1
 	}
@@ -672,6 +686,9 @@ func (e *env) returned(addrs []*keystore.ManagedAddress, plot bool) (id int, int
 				if a.Address == ma.String() {
 					id = e.id(k.Name)
 					internal = a.Branch == 1
+					if e.mustSign != nil {
+						e.mustSign[triple{id, a.Branch, a.Index}] = true
+					}
 					if a.Index < first {
 						first = a.Index
 					}
@@ -748,6 +765,9 @@ func (e *env) opGenPub() (string, string) {
 					e.fail("C06", "ordinal-not-index", "GenerateNewPublicKey returned ordinal %d for the key at external index %d (branch %d) of keystore %d", ord, a.Index, a.Branch, id)
 				}
 				e.noteIssued(hex.EncodeToString(want), triple{id, 0, a.Index})
+				if e.mustSign != nil {
+					e.mustSign[triple{id, 0, a.Index}] = true
+				}
 				return "genpub " + strconv.Itoa(id), fmt.Sprintf("keys %d 0 %d 1", id, ord)
 			}
 		}
@@ -772,6 +792,9 @@ func (e *env) opSign(t triple, dlen int) (string, string) {
 	if err != nil {
 		// C05: an issued key of a managed keystore must be able to sign whenever the wallet is unlocked
 		e.h.Res.OracleEvals++
+		if dlen == 32 && e.unlocked && !e.kmc.IsLocked() && e.mustSign[t] {
+			e.fail("C05", "issued-key-cannot-sign", "wallet unlocked; key %d/%d of keystore %d was handed out (or restored from an untampered file) and the keystore is still managed, but SignHash fails: %v", t.branch, t.idx, t.id, err)
+		}
 		if dlen == 32 && e.unlocked && !e.kmc.IsLocked() {
 			_, all := e.kmc.VerifDump()
 			for _, k := range all {
@@ -1377,6 +1400,7 @@ func main() {
 		e.issued, e.issuedAt = map[string]bool{}, map[string]triple{}
 		e.issuedGen, e.gen = map[string]int{}, map[int]int{}
 		e.acctVariant = map[int]int{}
+		e.mustSign = map[triple]bool{}
 		e.files = nil
 		e.freshID = 100 + 50*s
 		pub := []int{0, 0, 3}[h.Rng.Intn(3)]
